@@ -6,7 +6,8 @@ import sys, time
 from sympy import factorint, isprime
 from math import gcd
 sys.setrecursionlimit(10000)
-certs={}
+import json,os
+certs={int(k):[tuple(x) for x in v] for k,v in json.load(open('pock_certs.json')).items()} if os.path.exists('pock_certs.json') else {}
 SMALL=2**16
 def cert(N):
     if N in certs or N < SMALL: return
@@ -29,6 +30,5 @@ q=0x12ab655e9a2ca55660b44d1e5c37b00159aa76fed00000010a11800000000001
 r=0x4aad957a68b2955982d1347970dec005293a3afc43c8afeb95aee9ac33fd9ff
 extra=[int(x) for x in sys.argv[1:]]
 for N in [q,r,p]+extra: cert(N)
-import json
 json.dump({str(k):v for k,v in certs.items()}, open('pock_certs.json','w'))
 print(len(certs),'certs')
